@@ -156,8 +156,8 @@ impl Check for C08 {
     }
     fn phases(&self, tier: Tier) -> Vec<Phase> {
         match tier {
-            Tier::Quick => vec![Phase::random("content-profile", 6_000, 3072).batch(100).watchdog(30_000)],
-            Tier::Thorough => vec![Phase::random("content-profile", 80_000, 3072).batch(200).watchdog(30_000)],
+            Tier::Quick => vec![Phase::random("content-profile", 20_000, 3072).batch(100).watchdog(30_000)],
+            Tier::Thorough => vec![Phase::random("content-profile", 300_000, 3072).batch(200).watchdog(30_000)],
         }
     }
     fn describe(&self, _phase: usize, tape: &[u8]) -> String {
